@@ -158,21 +158,21 @@ func fname(f *ssa.Function) string {
 
 // calleeName names the resolved callee of a call:
 //
-//	static function/method  -> its full name, e.g. (net/http.Header).Set, io.ReadFull
+//	static function/method  -> its name with the module prefix removed, e.g. (net/http.Header).Set, io.ReadFull, (*martian/h2.relay).data
 //	interface method        -> "invoke " + interface type + "." + method
 //	closure / func value    -> "dynamic"
 //	builtin                 -> "builtin " + name
 func calleeName(c *ssa.CallCommon) string {
 	if c.IsInvoke() {
-		return "invoke " + types.TypeString(c.Value.Type(), nil) + "." + c.Method.Name()
+		return "invoke " + types.TypeString(c.Value.Type(), shortQual) + "." + c.Method.Name()
 	}
 	switch v := c.Value.(type) {
 	case *ssa.Function:
-		return origin(v).String()
+		return fname(origin(v))
 	case *ssa.Builtin:
 		return "builtin " + v.Name()
 	case *ssa.MakeClosure:
-		return v.Fn.(*ssa.Function).String()
+		return fname(v.Fn.(*ssa.Function))
 	}
 	return "dynamic"
 }
@@ -614,6 +614,9 @@ func describeShallow(v ssa.Value, d func(ssa.Value) string) string {
 	case *ssa.Call:
 		return describeCall(x.Common(), d)
 	case *ssa.Extract:
+		if ta, ok := x.Tuple.(*ssa.TypeAssert); ok && x.Index == 0 {
+			return d(ta) // the value of a comma-ok assertion prints like the plain assertion
+		}
 		return d(x.Tuple) + "#" + fmt.Sprint(x.Index)
 	case *ssa.Lookup:
 		return d(x.X) + "[" + d(x.Index) + "]"
@@ -729,6 +732,16 @@ func singleStore(a *ssa.Alloc) ssa.Value {
 				return nil // address stored somewhere
 			}
 		case *ssa.UnOp, *ssa.DebugRef:
+		case *ssa.MakeClosure:
+			// captured by reference: fine as long as the literal never assigns it
+			for i, b := range x.Bindings {
+				if b != ssa.Value(a) {
+					continue
+				}
+				if closureStoresTo(x.Fn.(*ssa.Function), i) {
+					return nil
+				}
+			}
 		default:
 			return nil
 		}
@@ -737,6 +750,30 @@ func singleStore(a *ssa.Alloc) ssa.Value {
 		return val
 	}
 	return nil
+}
+
+// closureStoresTo reports whether lit (or a literal nested in it that captures
+// the same variable) assigns its i-th free variable.
+func closureStoresTo(lit *ssa.Function, i int) bool {
+	fv := lit.FreeVars[i]
+	for _, ref := range *fv.Referrers() {
+		switch x := ref.(type) {
+		case *ssa.Store:
+			if x.Addr == fv {
+				return true
+			}
+		case *ssa.MakeClosure:
+			for j, b := range x.Bindings {
+				if b == ssa.Value(fv) && closureStoresTo(x.Fn.(*ssa.Function), j) {
+					return true
+				}
+			}
+		case *ssa.UnOp, *ssa.DebugRef:
+		default:
+			return true
+		}
+	}
+	return false
 }
 
 // stores returns every value stored to the local a.
